@@ -12,6 +12,16 @@ import sys
 VERIF = os.path.dirname(os.path.dirname(os.path.abspath(__file__)))
 
 HINTS = {
+    7: "ROUND %d. Earlier testers already produced the changes listed at the end; yours must be of a DIFFERENT kind "
+       "again. Look at the edges of the usage envelope: (a) RE-ENTRANCY and nesting - logging from inside a "
+       "destination's Write, from a value's String / MarshalText / LogValue / Error method while a record is being "
+       "formatted, a logger that is (indirectly) its own destination, deeply nested groups; (b) the ENVIRONMENT - "
+       "environment variables, terminal detection, the time zone database, the working directory, os.Args, "
+       "GOMAXPROCS=1 vs many; (c) LONG-RUNNING processes - the 257th / 65537th record, logger, child, registered "
+       "level or writer, counters that wrap, tables and slices that only grow, maps iterated in random order; (d) ZERO "
+       "VALUES - nil or zero-value loggers and options, empty names, empty lists, the zero time, the zero level, empty "
+       "strings as keys or messages. As before each change must be a plausible edit of the library (not of its tests), "
+       "need something specific to manifest and leave the whole existing suite green.",
     6: "ROUND %d. Earlier testers already produced the changes listed at the end; yours must be of a DIFFERENT kind "
        "again. This time play the well-meaning maintainer: (a) a PERFORMANCE optimisation gone subtly wrong - a fast "
        "path that skips work believed redundant, a cache / pooled object / preallocated buffer / unsafe string-bytes "
